@@ -155,6 +155,11 @@ theorem bm_root_search_exact (c : BchInst) (hc : c ∈ Generated.C03B.instances)
   haveI := (BCHBound.facts_of_ok c (C03.bch_ok c hc)).good
   exact BMProofs.locate_exact (BCHBound.facts_of_ok c (C03.bch_ok c hc)) E hE sig
 
+/-- the even-indexed syndromes of a binary word are the squares of the lower ones (`S_{2i} = S_i²`, Frobenius), for every received word -/
+theorem bm_syndromes_conjugate (c : BchInst) (hc : c ∈ Generated.C03B.instances) (r i : Nat) :
+    Kaira.BM.syndAt c.P c.n r (2 * i) = Kaira.GF2m.fmul c.P (Kaira.BM.syndAt c.P c.n r i) (Kaira.BM.syndAt c.P c.n r i) :=
+  BMProofs.syndAt_double (BCHBound.facts_of_ok c (C03.bch_ok c hc)) r i
+
 /-- code words are left untouched for every `t` within the design distance -/
 theorem bm_no_error (c : BchInst) (hc : c ∈ Generated.C03B.instances) (t : Nat) (ht : 2 * t < c.delta) (msg : Nat) :
     Kaira.BM.correct c.P c.m t c.n (encode c.G msg) = encode c.G msg :=
